@@ -629,10 +629,11 @@ def _put_one_ImportFrom_level(
         start_ln = ln
         start_col = col
 
-        while dot := next_find(lines, ln, col, end_ln, end_col, '.'):
-            ln, col = dot
-            col += 1
-            child -= 1
+        while child and (frag := next_frag(lines, ln, col, end_ln, end_col)) and (src := frag.src).startswith('.'):  # only the leading dots, not the ones inside the module name
+            ln, col, _ = frag
+            ndots = min(len(src) - len(src.lstrip('.')), child)
+            col += ndots
+            child -= ndots
 
         assert not child
 
